@@ -144,6 +144,15 @@ def tree_key():
     return _TREE_KEY
 
 
+_SHARED = {}
+
+
+def _job_ix(args):
+    """pool entry point: contracts and the config factory are inherited through fork (they hold closures)"""
+    ix, timeout_ms, case = args
+    return _job((_SHARED['contracts'][ix], _SHARED['cfg_factory'], timeout_ms, case))
+
+
 def _job(args):
     contract, cfg_factory, timeout_ms, case = args
     import hashlib
@@ -173,18 +182,27 @@ def _job(args):
     return rep
 
 
-def verify_many(contracts, cfg_factory, timeout_ms=None, workers=None):
+def verify_many(contracts, cfg_factory, timeout_ms=None, workers=None, include_slow=False):
     jobs = []
+    skipped = []
     for c in contracts:
         cases = c.cases() if hasattr(c, 'cases') else None
         if cases:
             jobs.append((c, cfg_factory, timeout_ms, 'coverage'))
             for ix in range(len(cases)):
+                if not include_slow and cases[ix][0] in getattr(c, 'slow_cases', ()):
+                    skipped.append({'function': c.qual, 'case': '#' + cases[ix][0], 'obligations': [], 'paths': 0,
+                                    'out_of_reach': 'case verified in the thorough tier only (path exploration takes tens of minutes)'})
+                    continue
                 jobs.append((c, cfg_factory, timeout_ms, ix))
         else:
             jobs.append((c, cfg_factory, timeout_ms, None))
     workers = workers or min(16, os.cpu_count() or 4, max(1, len(jobs)))
     if workers == 1:
-        return [_job(j) for j in jobs]
+        return [_job(j) for j in jobs] + skipped
+    _SHARED['contracts'] = list(contracts)
+    _SHARED['cfg_factory'] = cfg_factory
+    ix_of = {id(c): i for i, c in enumerate(contracts)}
+    ijobs = [(ix_of[id(c)], t, case) for c, _, t, case in jobs]
     with mp.get_context('fork').Pool(workers) as pool:
-        return pool.map(_job, jobs, chunksize=1)
+        return pool.map(_job_ix, ijobs, chunksize=1) + skipped
